@@ -44,7 +44,7 @@ TERMINALS = [
         'Y': [('2019', .5), ('1999', 0.49999999999999994)], 'X': [('#1', 1.0)],
     },
 ]
-STRUCTS = ['A1', 'A1D1', 'D1A1', 'A2A1', 'A1O1A2', 'D1D1', 'D2', 'Y1O1', 'K4X1', 'M', 'A1D1A1']
+STRUCTS = ['A1', 'A1D1', 'D1A1', 'A2A1', 'A1O1A2', 'D1D1', 'D2', 'Y1O1', 'K4X1', 'M', 'A1D1A1', 'A1A1A1']
 PROBS = {1: [[1.0], [0.3]], 2: [[.5, .3], [.4, .4]], 3: [[.5, .3, .2], [.4, .4, .2]]}
 PRINCE = [('A1', .4), ('D1', .3), ('A2', .2), ('O1', .1)]
 
